@@ -7,7 +7,7 @@ constructor arguments and by attribute assignment, packs, re-parses, calls asser
 from lib import common, valuesprofile as vp
 from bind import replay_packet as rp
 
-OWNED = {"C02_PackSucceeds", "C02_Layout", "C02_Reparse", "C02_PosReparse", "C02_AssertConsistency", "conf_assert_consistency",
+OWNED = {"C02_PackSucceeds", "C02_PackSucceedsPos", "C02_Layout", "C02_Reparse", "C02_PosReparse", "C02_AssertConsistency", "conf_assert_consistency",
          # the bytes are each field's encoding at its declared position: with positioning the pack machine
          # (reference placement rules, MoveTarget) determines them uniquely; so does a re-pack after assignment
          "conf_out", "conf_out2", "C07_Pack2"}
